@@ -103,7 +103,12 @@ type runner struct {
 	inited    bool
 	zeroPhase bool // this client starts with 0-RTT data
 	draining  int
+	ad        int // style 4: position in the anti-deadlock script (adDone when it is over)
+	adVar     int // … and which variant of it
+	adLeft    int // … 0-RTT packets still to send
 }
+
+const adDone = 100
 
 func (rn *runner) OnAcked(f wire.Frame) { rn.evs = append(rn.evs, "a"+frameID(f)) }
 func (rn *runner) OnLost(f wire.Frame)  { rn.evs = append(rn.evs, "l"+frameID(f)) }
@@ -161,8 +166,12 @@ func newRunner(r *vh.Rand) vh.Runner {
 	rn := &runner{now: 1_000_000_000 + r.Range(0, 1_000_000_000)}
 	// default configuration (what the oracle assumes when the `init` line is absent)
 	rn.create(true, 0, false, false, false, false, 0, nil, 0, 25_000_000, 0)
-	rn.style = r.Pick(45, 25, 15, 15) // mixed / PTO storms / server amplification / bulk sending (congestion and pacing limits)
+	// mixed / PTO storms / server amplification / bulk sending (congestion and pacing limits) / anti-deadlock PTO of a 0-RTT client
+	rn.style = r.Pick(40, 22, 13, 13, 12)
 	rn.zeroPhase = r.Chance(35)
+	if rn.style == 4 {
+		rn.zeroPhase = true
+	}
 	return rn
 }
 
@@ -395,10 +404,98 @@ func (rn *runner) genTimeout(r *vh.Rand) string {
 	return fmt.Sprintf("timeout %d", rn.now)
 }
 
+// genAntiDeadlock scripts the situation of /repo 23a90f5: a client sends its ClientHello and a flight of 0-RTT packets
+// that (usually) fills the congestion window; then no Initial/Handshake packet stays outstanding — the Initial packet is
+// acknowledged (variant 0), acknowledged and the Initial space dropped when the first Handshake packet goes out (1), or
+// declared lost by a PTO probe that is queued but not sent yet (2) — while the ACKs for the 0-RTT packets, which travel
+// in 1-RTT packets, do not arrive. The loss-detection alarm (the anti-deadlock PTO) fires at or after its deadline and
+// SendMode is asked with the congestion controller saying no. Afterwards the case goes on like a mixed one.
+func (rn *runner) genAntiDeadlock(r *vh.Rand) string {
+	step := rn.ad
+	rn.ad++
+	switch {
+	case step == 0:
+		rn.adVar = r.Pick(50, 25, 25)
+		rn.adLeft = 45 // more than the initial window (32 packets) holds
+		if r.Chance(25) {
+			rn.adLeft = int(r.Range(1, 6)) // or just a few: bytes in flight, not congestion limited
+		}
+		return fmt.Sprintf("send I %d -1 %d 0 0 %s", rn.now, r.Range(1200, 1252), rn.genFrames(r, 1, true))
+	case step == 1: // the 0-RTT flight
+		rn.now += r.Range(0, 50_000)
+		cs, _ := rn.vs.VerifCongestion(monotime.Time(rn.now))
+		if rn.adLeft > 0 && cs {
+			rn.adLeft--
+			rn.ad = 1
+			rn.nextFrame++
+			return fmt.Sprintf("send Z %d -1 %d 0 0 s%d", rn.now, r.Range(1200, 1252), rn.nextFrame)
+		}
+		return fmt.Sprintf("mode %d", rn.now)
+	case step == 2:
+		rn.now += r.Range(5_000_000, 80_000_000)
+		if rn.adVar == 2 { // the PTO for the Initial packet fires …
+			return rn.genTimeoutDue(r)
+		}
+		if len(rn.sent[0]) == 0 {
+			return fmt.Sprintf("mode %d", rn.now)
+		}
+		pn := rn.sent[0][len(rn.sent[0])-1]
+		return fmt.Sprintf("ack I %d %d 0,0,0 r=%d-%d", rn.now, r.Range(0, 3_000_000), pn, pn)
+	case step == 3:
+		switch rn.adVar {
+		case 1: // first Handshake packet (an ACK) sent …
+			return fmt.Sprintf("send H %d -1 %d 0 0 -", rn.now, r.Range(40, 80))
+		case 2: // … and the connection queues the probe: the Initial packet is declared lost
+			return "probe I"
+		}
+		return fmt.Sprintf("mode %d", rn.now)
+	case step == 4:
+		if rn.adVar == 1 { // … so the Initial keys are dropped
+			return fmt.Sprintf("drop I %d", rn.now)
+		}
+		return fmt.Sprintf("peek I")
+	case step == 5: // more early data fills the room the resolved Initial packet left in the window
+		rn.now += r.Range(0, 50_000)
+		if cs, _ := rn.vs.VerifCongestion(monotime.Time(rn.now)); cs && rn.adLeft > 0 {
+			rn.adLeft--
+			rn.ad = 5
+			rn.nextFrame++
+			return fmt.Sprintf("send Z %d -1 %d 0 0 s%d", rn.now, r.Range(1200, 1252), rn.nextFrame)
+		}
+		return fmt.Sprintf("mode %d", rn.now)
+	case step == 6: // the anti-deadlock PTO
+		return rn.genTimeoutDue(r)
+	case step == 7:
+		return fmt.Sprintf("mode %d", rn.now)
+	case step == 8 && r.Chance(50): // and once more (PTO backoff)
+		return rn.genTimeoutDue(r)
+	case step == 9:
+		rn.ad = adDone
+		return fmt.Sprintf("mode %d", rn.now)
+	}
+	return ""
+}
+
+// genTimeoutDue lets the loss-detection alarm fire at or after its deadline.
+func (rn *runner) genTimeoutDue(r *vh.Rand) string {
+	if al := int64(rn.h.GetLossDetectionTimeout()); al != 0 && al >= rn.now {
+		rn.now = al
+		if r.Chance(30) {
+			rn.now += r.Range(1, 20_000_000)
+		}
+	} else {
+		rn.now += r.Range(0, 5_000_000)
+	}
+	return fmt.Sprintf("timeout %d", rn.now)
+}
+
 func (rn *runner) genInit(r *vh.Rand) string {
 	client := r.Chance(60)
 	if rn.style == 2 {
 		client = false
+	}
+	if rn.style == 4 {
+		client = true
 	}
 	pn := int64(0)
 	if r.Chance(25) {
@@ -441,6 +538,11 @@ func (rn *runner) GenOp(r *vh.Rand, i int) string {
 	}
 	if rn.dead {
 		return ""
+	}
+	if rn.style == 4 && rn.ad < adDone {
+		if op := rn.genAntiDeadlock(r); op != "" {
+			return op
+		}
 	}
 	// voluntary end of the case: acknowledge everything that is outstanding, let probes time out, stop
 	if rn.draining == 0 && i > 8 && r.Chance(2) {
@@ -485,6 +587,7 @@ func (rn *runner) GenOp(r *vh.Rand, i int) string {
 		/*pto*/ {28, 10, 38, 4, 5, 1, 1, 3, 2, 5, 2, 1},
 		/*server*/ {36, 20, 10, 3, 4, 0, 1, 14, 6, 4, 1, 1},
 		/*bulk*/ {62, 10, 3, 2, 2, 1, 1, 2, 1, 14, 1, 1},
+		/*anti-deadlock, after its script*/ {36, 22, 14, 4, 4, 1, 1, 4, 3, 6, 3, 2},
 	}[rn.style]
 	switch r.Pick(w...) {
 	case 0:
